@@ -167,3 +167,18 @@ Definition dev_check (idx : N) (addrs evs : list Uint63.int) (pa : Uint63.int) (
   (match envelope_chk_tol (Z.of_N (n_of_int tol)) e 0 with Some i => [(idx, 2, 11, i)] | None => [] end) ++
   (match spaced_chk [] e 0 with Some i => [(idx, 2, 12, i)] | None => [] end) ++
   (match first_diff (decs_of a e) alone 0 with Some i => [(idx, 2, 14, i)] | None => [] end).
+
+(* ---- real collector goroutine: [emptied] = the table was emptied by the real
+   collector after the idle gap; [returned] = for each later call of Allow (and
+   the final Close) whether it returned before the watchdog expired.
+   kind 2, clause 7 a call does not return, clause 8 idle entries not forgotten
+   by the real collector. ---- *)
+Fixpoint first_false (l : list bool) (i : N) : option N :=
+  match l with
+  | [] => None
+  | true :: r => first_false r (i + 1)
+  | false :: _ => Some i
+  end.
+Definition live_check (emptied : bool) (returned : list bool) : list (N * N * N * N) :=
+  (if emptied then [] else [(0, 2, 8, 0)]) ++
+  (match first_false returned 0 with Some i => [(0, 2, 7, i)] | None => [] end).
